@@ -59,6 +59,24 @@ func VH_C04_LoginGate() {
 		vAssert("valid_login_is_served", r.dispatched == 1)
 		vAssert("valid_login_gets_handshake_reply_first", len(r.conn.out) >= 8)
 		vAssertEqBytes("valid_login_handshake_reply", r.conn.out[:8], c04HandshakeReply)
+		// the privileges announced to the client are the account's bitmap, unchanged (C16: same bit on the wire)
+		access := 0
+		for _, t := range r.outbox {
+			if t.Type == TranUserAccess {
+				access++
+				vAssert("access_notice_to_the_new_client", t.ClientID != r.other.ID)
+				vAssertEqBytes("announced_access_is_the_account_bitmap", t.Fields[0].Data, r.acct.account.Access[:])
+			}
+		}
+		vAssert("access_announced_once", access == 1)
+		// the login is answered exactly once, with the login transaction's ID
+		replies := 0
+		for _, t := range r.outbox {
+			if t.IsReply == 1 && t.ID == r.loginID {
+				replies++
+			}
+		}
+		vAssert("login_answered_once", replies >= 1)
 		return
 	}
 	vAssert("unauthenticated_request_not_executed", r.dispatched == 0)
